@@ -404,3 +404,28 @@ def _reset(ck: Check, repo: Repo) -> None:
                          "no longer matches the (empty) storage",
                   construct=f"{name}.clear resets {f}")
     ck.floor("C09.6", n_ob, 8, "advanced fields over the three single-agent buffers")
+
+
+_RBF = "agilerl/components/replay_buffer.py"
+_MAF = "agilerl/components/multi_agent_replay_buffer.py"
+VARIANTS = [
+    ("wrap-off-by-one", _RBF, "self._storage[: _n_transitions - n] = data[n:]", "self._storage[: _n_transitions - n + 1] = data[n:]", "fire", "C09.1"),
+    ("wrap-src-gap", _RBF, "self._storage[: _n_transitions - n] = data[n:]", "self._storage[: _n_transitions - n - 1] = data[n + 1 :]", "fire", "C09.1"),
+    ("wrap-cond-ge", _RBF, "        if end > self.max_size:", "        if end > self.max_size + 1:", "fire", "C09.1"),
+    ("cursor-no-mod", _RBF, "self._cursor = end % self.max_size", "self._cursor = end", "fire", "C09.2"),
+    ("size-unbounded", _RBF, "self._size = min(self._size + _n_transitions, self.max_size)", "self._size = self._size + _n_transitions", "fire", "C09.2"),
+    ("size-plus-one", _RBF, "self._size = min(self._size + _n_transitions, self.max_size)", "self._size = min(self._size + 1, self.max_size)", "fire", "C09.2"),
+    ("sample-capacity", _RBF, "indices = torch.randperm(self.size)[:batch_size]", "indices = torch.randperm(self.max_size)[:batch_size]", "fire", "C09.3"),
+    ("sample-with-replacement", _RBF, "indices = torch.randperm(self.size)[:batch_size]", "indices = torch.randint(0, self.size, (batch_size,))", "fire", "C09.3"),
+    ("sample-view", _RBF, "        samples: TensorDict = self._storage[indices]\n\n        if return_idx:", "        samples: TensorDict = self._storage[:batch_size]\n\n        if return_idx:", "fire", "C09.4"),
+    ("per-sample-no-clone-ok", _RBF, "        samples = samples.clone()\n", "", "silent", None),
+    ("temp-names-ok", _RBF, "        start = self._cursor\n        end = self._cursor + _n_transitions\n", "        start = self._cursor\n        width = _n_transitions\n        end = start + width\n", "silent", None),
+    ("ma-choices", _MAF, "experiences = random.sample(self.memory, k=batch_size)", "experiences = random.choices(self.memory, k=batch_size)", "fire", "C09.5"),
+    ("ma-unbounded", _MAF, "self.memory: Deque = deque(maxlen=memory_size)", "self.memory: Deque = deque()", "fire", "C09.5"),
+    ("ma-appendleft", _MAF, "        self.memory.append(e)", "        self.memory.appendleft(e)", "fire", "C09.5"),
+    ("ma-index-zero", _MAF, "new_dict[key] = maybe_to_array(value[i])", "new_dict[key] = maybe_to_array(value[0])", "fire", "C09.5"),
+    ("ma-wrong-results-slot", _MAF, "results[j].append(new_dict)", "results[0].append(new_dict)", "fire", "C09.5"),
+    ("clear-forgets-ptr", _RBF, "        self.tree_ptr = 0\n        self.sum_tree = SumSegmentTree(self.sum_tree.capacity)", "        self.sum_tree = SumSegmentTree(self.sum_tree.capacity)", "fire", "C09.6"),
+    ("clear-forgets-window", _RBF, "        super().clear()\n        self.n_step_buffer.clear()\n", "        super().clear()\n", "fire", "C09.6"),
+    ("clear-forgets-cursor", _RBF, "        self._size = 0\n        self._cursor = 0\n", "        self._size = 0\n", "fire", "C09.6"),
+]
